@@ -141,28 +141,44 @@ func (p plainReader) ReadUDP(c *net.UDPConn, t time.Duration) ([]byte, *dns.Sess
 
 func c13Scenario(name string, o c13Opt) *e2x.Scenario {
 	classify := func(x *vsched.Exec, viol map[string]string) map[string]string {
-		// One root cause gets one key: a second ActivateAndServe that is admitted in the same execution (the first
-		// Shutdown has already reset `started`) re-initialises the Server while the first serve loop may still be
-		// winding down: double close of srv.shutdown (panic), unsynchronised access to it, Shutdown waiting on the
+		// A second ActivateAndServe racing with a Shutdown is either refused, or admitted once the first run has
+		// drained (then it is a new life of the Server, and what the one Shutdown of the scenario owes concerns the
+		// first run only). One root cause gets one key: a second start admitted while the first run is still winding
+		// down re-initialises the Server under it — goroutines of the first run alive when the second announces itself
+		// ("overlap"), double close of srv.shutdown (panic), unsynchronised access to it, Shutdown waiting on the
 		// wrong channel. Executions in which one of the two starts was refused keep their ordinary keys.
 		if !o.secondStart {
 			return viol
 		}
 		refused := 0
 		for _, l := range x.Log {
-			if strings.HasSuffix(l, "-returned dns: server already started") {
+			if strings.HasSuffix(l, "-returned dns: server already started") || strings.HasSuffix(l, "-returned dns: server still shutting down") {
 				refused++
 			}
 		}
 		if refused > 0 {
 			return viol
 		}
+		// both admitted: the relations between "Shutdown returned" and handlers / goroutines / connections cannot be
+		// attributed to a run from the log (they are judged in every execution with one admitted start, and in the S9
+		// scenarios for a second life); everything else stays
+		hard := map[string]string{}
+		for k, v := range viol {
+			switch k {
+			case "goroutine-alive-after-shutdown", "handler-started-after-shutdown-returned", "shutdown-returned-before-handler-exit", "connection-open-after-shutdown", "connection-tracked-after-shutdown", "reply-lost":
+			default:
+				hard[k] = v
+			}
+		}
+		if len(hard) == 0 {
+			return hard
+		}
 		var ks []string
-		for k := range viol {
+		for k := range hard {
 			ks = append(ks, k)
 		}
 		sort.Strings(ks)
-		return map[string]string{"restart-admitted-during-shutdown": fmt.Sprintf("both ActivateAndServe calls were admitted in one execution (restart around a Shutdown); symptoms in this schedule: %v; first: %s", ks, viol[ks[0]])}
+		return map[string]string{"restart-admitted-during-shutdown": fmt.Sprintf("both ActivateAndServe calls were admitted in one execution (restart around a Shutdown); symptoms in this schedule: %v; first: %s", ks, hard[ks[0]])}
 	}
 	return &e2x.Scenario{Name: name, Classify: classify, New: func() (func(), func(*vsched.Exec) (string, map[string]string)) {
 		var (
@@ -191,7 +207,22 @@ func c13Scenario(name string, o c13Opt) *e2x.Scenario {
 				ln = simnet.NewListener("ln")
 				srv.Listener = ln
 			}
-			srv.NotifyStartedFunc = func() { vsched.Point("notify-started", nil); started = true; vsched.Logf("started") }
+			nStarted := 0
+			srv.NotifyStartedFunc = func() {
+				vsched.Point("notify-started", nil)
+				nStarted++
+				if nStarted > 1 {
+					// a further life of this Server begins: nothing of an earlier one may be left (a goroutine that has
+					// signalled completion and is about to exit apart)
+					for _, l := range vsched.Live() {
+						if libThread.MatchString(l) && !strings.HasSuffix(l, "@wg.Done") && !strings.HasSuffix(l, "@exit") {
+							vsched.Logf("overlap %s", l)
+						}
+					}
+				}
+				started = true
+				vsched.Logf("started")
+			}
 			if o.badReader {
 				srv.DecorateReader = func(r dns.Reader) dns.Reader { return plainReader{r} }
 			}
@@ -395,6 +426,9 @@ func c13Scenario(name string, o c13Opt) *e2x.Scenario {
 				if strings.HasPrefix(l, "first-shutdown-error") || strings.HasPrefix(l, "first-serve-error") {
 					v["first-life-failed"] = "the start / Shutdown cycle before the scenario proper did not go through: " + l
 				}
+				if strings.HasPrefix(l, "overlap ") {
+					v["run-overlap"] = "a further run of the Server announced itself (NotifyStartedFunc) while a goroutine spawned by an earlier run was still running: " + strings.TrimPrefix(l, "overlap ")
+				}
 				if strings.HasPrefix(l, "left-goroutine ") {
 					v["goroutine-alive-after-shutdown"] = "when Shutdown returned nil a goroutine spawned by the server was still running: " + strings.TrimPrefix(l, "left-goroutine ")
 				}
@@ -549,6 +583,8 @@ func c13Spaces(c *fw.Ctx) {
 		{"S5/pc/reader-without-ReadPacketConn", c13Opt{transport: "pc", badReader: true}, 100, 100},
 		{"S3/tcp/silent-client+second-start", c13Opt{transport: "tcp", clients: []string{"silent"}, secondStart: true}, 1, 2},
 		{"S3/pc/1-client+second-start", c13Opt{transport: "pc", clients: []string{"full"}, secondStart: true}, 1, 2},
+		{"S11/tcp/in-flight+ctx+second-start", c13Opt{transport: "tcp", clients: []string{"full"}, blockHandler: true, secondStart: true}, 0, 1},
+		{"S11/pc/in-flight+ctx+second-start", c13Opt{transport: "pc", clients: []string{"full"}, blockHandler: true, secondStart: true}, 0, 1},
 		{"S3/tcp/double-start-double-shutdown", c13Opt{transport: "tcp", secondStart: true, secondShutdown: true}, 2, 3},
 		{"S3/pc/double-start-double-shutdown", c13Opt{transport: "pc", secondStart: true, secondShutdown: true}, 1, 2},
 	}
